@@ -137,6 +137,9 @@ func RunCheck(l *Loaded, spec *Spec, opt Options) int {
 		if !cd.outcome.Reproduced {
 			unconfirmed = append(unconfirmed, cd.c.Key+" :: "+cd.outcome.Detail)
 			fmt.Printf("unconfirmed (engine counterexample does not reproduce natively; not reported): %s :: %s\n", cd.c.Key, cd.outcome.Detail)
+			if opt.Verbose {
+				fmt.Printf("  model=%s\n  native output: %s\n", fmtModel(cd.c.Vals), tail(cd.outcome.Output, 600))
+			}
 			continue
 		}
 		if k, ok := known[cd.c.Key]; ok {
@@ -188,7 +191,7 @@ func RunCheck(l *Loaded, spec *Spec, opt Options) int {
 	}
 	cov := ev["coverage"].(map[string]interface{})
 	fmt.Printf("%s %s: jobs=%d paths=%d queries=%d obligations(sym)=%d solver=%.1fs known=%d unconfirmed=%d inconclusive=%d vacuous=%d violations=%d wall=%.1fs\n",
-		spec.Prop, spec.Tier, len(spec.Jobs), cov["states"], cov["evaluations"], cov["distinct_nontrivial"], cov["solver_s"], len(knownHit), len(unconfirmed), cov["inconclusive_count"], len(vacuous), violations, time.Since(t0).Seconds())
+		spec.Prop, spec.Tier, len(spec.Jobs), cov["states"], cov["evaluations"], cov["assertions_decided_by_solver"], cov["solver_s"], len(knownHit), len(unconfirmed), cov["inconclusive_count"], len(vacuous), violations, time.Since(t0).Seconds())
 	if opt.Verbose {
 		for _, s := range cov["inconclusive"].([]string) {
 			fmt.Println("  inconclusive:", s)
@@ -243,7 +246,7 @@ func fmtModel(m map[string]int64) string {
 
 func buildEvidence(l *Loaded, spec *Spec, results []*JobResult, rp *Replayer, knownHit, unconfirmed, vacuous []string,
 	vioSamples []interface{}, violations int, opt Options, wall time.Duration) map[string]interface{} {
-	paths, queries, symAsserts, asserts, dead := 0, 0, 0, 0, 0
+	paths, queries, symAsserts, asserts, dead, pathsA := 0, 0, 0, 0, 0, 0
 	var steps int64
 	forks, merges := 0, 0
 	solverS := 0.0
@@ -256,6 +259,7 @@ func buildEvidence(l *Loaded, spec *Spec, results []*JobResult, rp *Replayer, kn
 		dead += r.Dead
 		queries += r.Queries
 		symAsserts += r.SymAsserts
+		pathsA += r.PathsWithAsserts
 		asserts += r.Asserts
 		steps += r.Steps
 		forks += r.Forks
@@ -297,8 +301,9 @@ func buildEvidence(l *Loaded, spec *Spec, results []*JobResult, rp *Replayer, kn
 	}
 	cov := map[string]interface{}{
 		"evaluations":                   queries,
-		"distinct_nontrivial":           symAsserts,
-		"rule":                          spec.Rule + " | evaluations = SMT queries discharged (feasibility, panic-freedom and assertion queries); distinct_nontrivial = assertion obligations whose negation was a genuinely symbolic formula sent to the solver (assertions folded to a constant by the term rewriter are not counted)",
+		"distinct_nontrivial":           pathsA,
+		"assertions_decided_by_solver":  symAsserts,
+		"rule":                          spec.Rule + " | evaluations = SMT queries discharged (feasibility of branch sides, panic-freedom and assertion queries); distinct_nontrivial = distinct symbolic paths (each a different decision prefix, i.e. a different class of inputs/histories, covering all values of its symbolic inputs) on which at least one assertion of the property was evaluated; assertions_decided_by_solver = assertion obligations whose negation was a genuinely symbolic formula sent to the solver (the others were reduced to true by the fuzz-tested term canonicaliser, e.g. identical slices on both sides)",
 		"samples":                       samples,
 		"states":                        paths,
 		"transitions":                   forks + merges,
